@@ -124,4 +124,137 @@ AuthInput(p, spi, tcCode) ==
         dh == IF spi \in {"nodrkey", "ashost-receiver"} THEN p.dst ELSE <<>>
         sh == IF spi \in {"nodrkey", "ashost-sender"} THEN p.src ELSE <<>> IN
     meta \o cmn \o ias \o dh \o sh \o ZeroPath(p.pk, p.path) \o p.pld
+
+-----------------------------------------------------------------------------
+(* C18 -- header layouts as data (doc/protocols/scion-header.rst, extension-header.rst, scmp.rst).
+   A layout is a sequence of items <<width, value, reserved>>: an integer field of `width` bits, or
+   <<0, bytes, FALSE>> for a byte string.  Field values wider than 24 bits (ISD-AS, timestamps, MACs,
+   interface ids ...) are byte strings because TLC integers are 32 bit.  Pack turns items into bytes,
+   MaskOf into the byte mask of the non-reserved bits.
+
+   Only the encoding direction is specified; decoding is its inverse: a decoder that returns field
+   values d for bytes b is correct iff  Pack(Items(d)) = b  on the non-reserved bits.             *)
+I(w, v) == <<w, v, FALSE>>
+RSV(w) == <<w, 0, TRUE>>
+B(bs) == <<0, bs, FALSE>>
+
+BitsOfInt(w, v) == [i \in 1..w |-> (v \div (2 ^ (w - i))) % 2]
+BitsOfBytes(bs) == [i \in 1..(8 * Len(bs)) |-> (bs[((i - 1) \div 8) + 1] \div (2 ^ (7 - ((i - 1) % 8)))) % 2]
+ItemBits(it) == IF it[1] = 0 THEN BitsOfBytes(it[2]) ELSE BitsOfInt(it[1], it[2])
+ItemMask(it) == IF it[1] = 0 THEN [i \in 1..(8 * Len(it[2])) |-> 1]
+                ELSE [i \in 1..it[1] |-> IF it[3] THEN 0 ELSE 1]
+BitsToBytes(bits) == [i \in 1..(Len(bits) \div 8) |->
+                        bits[8 * i - 7] * 128 + bits[8 * i - 6] * 64 + bits[8 * i - 5] * 32 + bits[8 * i - 4] * 16
+                        + bits[8 * i - 3] * 8 + bits[8 * i - 2] * 4 + bits[8 * i - 1] * 2 + bits[8 * i]]
+Pack(items) == BitsToBytes(FoldLeft(LAMBDA acc, it : acc \o ItemBits(it), <<>>, items))
+MaskOf(items) == BitsToBytes(FoldLeft(LAMBDA acc, it : acc \o ItemMask(it), <<>>, items))
+ItemsWidth(items) == FoldLeft(LAMBDA acc, it : acc + (IF it[1] = 0 THEN 8 * Len(it[2]) ELSE it[1]), 0, items)
+\* value-range check: an integer item fits its width, a byte string has bytes
+ItemsFit(items) == \A k \in 1..Len(items) :
+                      IF items[k][1] = 0 THEN \A j \in 1..Len(items[k][2]) : items[k][2][j] \in 0..255
+                      ELSE items[k][2] >= 0 /\ items[k][2] < 2 ^ items[k][1]
+
+\* b AND mask, bytewise (mask bytes are runs of whole reserved bit groups; computed per bit)
+AndByte(x, m) == LET bx == BitsOfInt(8, x)
+                     bm == BitsOfInt(8, m) IN
+                 bx[1] * bm[1] * 128 + bx[2] * bm[2] * 64 + bx[3] * bm[3] * 32 + bx[4] * bm[4] * 16
+                 + bx[5] * bm[5] * 8 + bx[6] * bm[6] * 4 + bx[7] * bm[7] * 2 + bx[8] * bm[8]
+Masked(b, mask) == [i \in 1..Len(b) |-> IF mask[i] = 255 THEN b[i] ELSE IF mask[i] = 0 THEN 0 ELSE AndByte(b[i], mask[i])]
+
+Flatten(seqs) == FoldLeft(LAMBDA acc, x : acc \o x, <<>>, seqs)
+
+\* --- SCION header: common header, address header, path
+CmnItems(v) == <<I(4, v.version), I(8, v.tc), I(20, v.flowid), I(8, v.nexthdr), I(8, v.hdrlen), I(16, v.payloadlen),
+                 I(8, v.pathtype), I(2, v.dt), I(2, v.dl), I(2, v.st), I(2, v.sl), RSV(16)>>
+AddrItems(v) == <<B(v.dstia), B(v.srcia), B(v.dst), B(v.src)>>
+InfoItems(f) == <<RSV(6), I(1, f.peer), I(1, f.consdir), RSV(8), I(16, f.segid), B(f.ts)>>
+HopItems(h) == <<RSV(6), I(1, h.ialert), I(1, h.ealert), I(8, h.exptime), I(16, h.ingress), I(16, h.egress), B(h.mac)>>
+ScionPathItems(p) ==
+    <<I(2, p.currinf), I(6, p.currhf), RSV(6), I(6, p.seglen[1]), I(6, p.seglen[2]), I(6, p.seglen[3])>>
+      \o Flatten([i \in 1..Len(p.infos) |-> InfoItems(p.infos[i])])
+      \o Flatten([i \in 1..Len(p.hops) |-> HopItems(p.hops[i])])
+PathItems(p) ==
+    CASE p.kind = "empty" -> <<>>
+      [] p.kind = "scion" -> ScionPathItems(p)
+      [] p.kind = "epic" -> <<B(p.pktid), B(p.phvf), B(p.lhvf)>> \o ScionPathItems(p)
+      [] p.kind = "onehop" -> InfoItems(p.infos[1]) \o HopItems(p.hops[1]) \o HopItems(p.hops[2])
+PathTypeOf(kind) == CASE kind = "empty" -> 0 [] kind = "scion" -> 1 [] kind = "onehop" -> 2 [] kind = "epic" -> 3
+ScionItems(v) == CmnItems(v) \o AddrItems(v) \o PathItems(v.path)
+
+\* a well-formed SCION header value: declared type/lengths agree with the variable parts
+ScionConsistent(v) ==
+    /\ Len(v.dst) = 4 * (v.dl + 1) /\ Len(v.src) = 4 * (v.sl + 1) /\ Len(v.dstia) = 8 /\ Len(v.srcia) = 8
+    /\ v.pathtype = PathTypeOf(v.path.kind)
+    /\ v.path.kind \in {"scion", "epic"} =>
+          /\ Len(v.path.infos) = NumInf(v.path.seglen) /\ Len(v.path.hops) = NumHops(v.path.seglen)
+          /\ \A i \in 1..3 : (v.path.seglen[i] = 0 => \A j \in i..3 : v.path.seglen[j] = 0)
+    /\ v.path.kind = "onehop" => Len(v.path.infos) = 1 /\ Len(v.path.hops) = 2
+
+\* --- hop-by-hop / end-to-end extension: NextHdr, ExtLen, TLV options (type 0 = Pad1 has no length byte)
+OptItems(o) == IF o.type = 0 THEN <<I(8, 0)>> ELSE <<I(8, o.type), I(8, Len(o.data)), B(o.data)>>
+ExtItems(v) == <<I(8, v.nexthdr), I(8, v.extlen)>> \o Flatten([i \in 1..Len(v.opts) |-> OptItems(v.opts[i])])
+NonPad(opts) == SelectSeq(opts, LAMBDA o : o.type \notin {0, 1})
+OptLen(o) == IF o.type = 0 THEN 1 ELSE 2 + Len(o.data)
+\* offset (from the start of the extension header) of option k
+RECURSIVE OptOffset(_, _)
+OptOffset(opts, k) == IF k = 1 THEN 2 ELSE OptOffset(opts, k - 1) + OptLen(opts[k - 1])
+
+\* --- UDP and SCMP
+UdpItems(v) == <<I(16, v.sport), I(16, v.dport), I(16, v.len), I(16, v.cksum)>>
+ScmpBodyItems(t, v) ==
+    CASE t = 1 -> <<RSV(16), RSV(16)>>
+      [] t = 2 -> <<RSV(16), I(16, v.mtu)>>
+      [] t = 4 -> <<RSV(16), I(16, v.pointer)>>
+      [] t = 5 -> <<B(v.ia), B(v.ifid)>>
+      [] t = 6 -> <<B(v.ia), B(v.ingress), B(v.egress)>>
+      [] t \in {128, 129} -> <<I(16, v.id), I(16, v.seq)>>
+      [] t \in {130, 131} -> <<I(16, v.id), I(16, v.seq), B(v.ia), B(v.ifid)>>
+      [] OTHER -> <<>>
+ScmpItems(v) == <<I(8, v.type), I(8, v.code), I(16, v.cksum)>> \o ScmpBodyItems(v.type, v)
+ScmpBodyLen(t) == CASE t \in {1, 2, 4, 128, 129} -> 4 [] t = 5 -> 16 [] t = 6 -> 24 [] t \in {130, 131} -> 20 [] OTHER -> 0
+
+Items(layer, v) == CASE layer = "scion" -> ScionItems(v)
+                     [] layer \in {"hbh", "e2e"} -> ExtItems(v)
+                     [] layer = "udp" -> UdpItems(v)
+                     [] layer = "scmp" -> ScmpItems(v)
+
+\* --- "the declared lengths exceed the data": computed from the raw bytes alone, independently of Items
+RECURSIVE TlvExceeds(_, _, _)
+TlvExceeds(b, off, end) ==         \* off: 1-based index of the next option, end: last index of the extension
+    IF off > end THEN FALSE
+    ELSE IF b[off] = 0 THEN TlvExceeds(b, off + 1, end)
+    ELSE IF off + 1 > end THEN TRUE
+    ELSE IF off + 1 + b[off + 1] > end THEN TRUE
+    ELSE TlvExceeds(b, off + 2 + b[off + 1], end)
+
+ScionPathNeed(b, o, ptype, avail) ==   \* o: 0-based offset of the path, avail: bytes HdrLen leaves for it
+    CASE ptype = 1 -> IF avail < 4 THEN 4
+                      ELSE LET segs == SegLensOf(SubSeq(b, o + 1, o + 4)) IN 4 + 8 * NumInf(segs) + 12 * NumHops(segs)
+      [] ptype = 3 -> IF avail < 20 THEN 20
+                      ELSE LET segs == SegLensOf(SubSeq(b, o + 17, o + 20)) IN 20 + 8 * NumInf(segs) + 12 * NumHops(segs)
+      [] ptype = 2 -> 32
+      [] OTHER -> 0
+
+LenExceeds(layer, b) ==
+    CASE layer = "scion" ->
+           IF Len(b) < 12 THEN TRUE
+           ELSE LET al == 16 + 4 * (((b[10] \div 16) % 4) + 1) + 4 * ((b[10] % 4) + 1)
+                    hb == 4 * b[6] IN
+                IF Len(b) < 12 + al THEN TRUE
+                ELSE IF hb < 12 + al THEN FALSE          \* inconsistent, but nothing exceeds the data
+                ELSE IF Len(b) < hb THEN TRUE
+                ELSE ScionPathNeed(b, 12 + al, b[9], hb - 12 - al) > hb - 12 - al
+      [] layer \in {"hbh", "e2e"} ->
+           IF Len(b) < 2 THEN TRUE
+           ELSE IF 4 * (b[2] + 1) > Len(b) THEN TRUE
+           ELSE TlvExceeds(b, 3, 4 * (b[2] + 1))
+      [] layer = "udp" -> Len(b) < 8 \/ (U16At(b, 5) > Len(b))
+      [] layer = "scmp" -> Len(b) < 4 \/ Len(b) < 4 + ScmpBodyLen(b[1])
+
+\* the number of bytes the header of this layer declares for itself
+DeclaredLen(layer, v) ==
+    CASE layer = "scion" -> 4 * v.hdrlen
+      [] layer \in {"hbh", "e2e"} -> 4 * (v.extlen + 1)
+      [] layer = "udp" -> 8
+      [] layer = "scmp" -> 4 + ScmpBodyLen(v.type)
 =============================================================================
